@@ -1,7 +1,7 @@
 (* C07 — property theorems only. Source = C07.Src, regenerated from /repo on this run. *)
 From Coq Require Import Reals ZArith String List Bool Lra Permutation.
 Require Import Py.PyAst Py.PyVal Py.PySem Py.XLemmas.
-Require Import C07.Src C07.Model.
+Require Import C07.Src C07.Model C07.NumN.
 Import ListNotations.
 Open Scope string_scope.
 Open Scope R_scope.
@@ -90,3 +90,11 @@ Theorem C07_num_data : forall n n1 n2 rg cu,
        (VInt (0 + n1 + 1 + n2)) cu [].
 Proof. intros. split; [apply num_data_attribute | split; [apply num_data_method | apply num_data_sample]]. Qed.
 Print Assumptions C07_num_data.
+
+(* THE NUMBER OF DATA POINTS OF A SAMPLE OF ANY SIZE (induction over the interpreter's loop, NumN.v): the sum over the lenses of what each
+   reports - the integer attribute of its likelihood ([Some n]) or, for a double-source-plane lens ([None]), the method returning 1 *)
+Theorem C07_num_data_of_a_sample_of_any_size : forall (ks : list (option Z)) (w : world),
+  call Gn 60 (CFun src_LensSampleLikelihood_num_data) (Some (sampleN ks)) [] [] w
+  = Ok (VInt (fold_right (fun k s => ndK k + s) 0 ks)%Z, w).
+Proof. exact num_data_any_sample. Qed.
+Print Assumptions C07_num_data_of_a_sample_of_any_size.
